@@ -32,6 +32,57 @@ var typeSamples = map[string]string{
 	"org/website":    `{"url":"https://example.com"}`,
 	"head/link":      `{"key":"portal","url":"https://example.com/doc"}`,
 	"cbc/source":     `{"url":"https://example.com/source"}`,
+	"dsig/digest":    `{"alg":"sha256","val":"9f86d081884c7d659a2feaa0c55ad015a3bf4f1b2b0b822cd15d6c15b0f00a08"}`,
+}
+
+// otherCase writes the letters of a text in the other case (lower case
+// becomes upper case; a text without lower case letters becomes lower case).
+// ok is false when nothing changes.
+func otherCase(v string) (string, bool) {
+	out := strings.ToUpper(v)
+	if out == v {
+		out = strings.ToLower(v)
+	}
+	return out, out != v
+}
+
+// stringLeaves lists the paths of the string leaves of an instance.
+func stringLeaves(v any, prefix []string, out *[][]string) {
+	switch t := v.(type) {
+	case map[string]any:
+		keys := make([]string, 0, len(t))
+		for k := range t {
+			keys = append(keys, k)
+		}
+		sort.Strings(keys)
+		for _, k := range keys {
+			stringLeaves(t[k], append(append([]string{}, prefix...), k), out)
+		}
+	case []any:
+		if len(t) > 0 {
+			stringLeaves(t[0], append(append([]string{}, prefix...), "[]"), out)
+		}
+	case string:
+		*out = append(*out, prefix)
+	}
+}
+
+func leafAt(v any, path []string) (string, bool) {
+	for _, p := range path {
+		switch t := v.(type) {
+		case map[string]any:
+			v = t[p]
+		case []any:
+			if p != "[]" || len(t) == 0 {
+				return "", false
+			}
+			v = t[0]
+		default:
+			return "", false
+		}
+	}
+	s, ok := v.(string)
+	return s, ok
 }
 
 type scalarPath struct {
@@ -164,6 +215,27 @@ func enumAbsentMembers(yield func(MutCase) bool) {
 				if !emit(b, cptr, "absent:valid:"+name, wrap(valid)) {
 					return false
 				}
+				// the same instance with one text written in the other letter case:
+				// where the library reads both, the schema must as well
+				var leaves [][]string
+				stringLeaves(valid, nil, &leaves)
+				for _, lp := range leaves {
+					cur, ok := leafAt(valid, lp)
+					if !ok {
+						continue
+					}
+					flipped, changed := otherCase(cur)
+					if !changed {
+						continue
+					}
+					var inst any = flipped
+					if len(lp) > 0 {
+						inst = withPath(s, target, valid, lp, flipped)
+					}
+					if !emit(b, cptr, "absent:case:"+name+"/"+strings.Join(lp, "/"), wrap(inst)) {
+						return false
+					}
+				}
 				switch s.Kind(target) {
 				case "scalar", "any":
 					if s.Constrained(target) {
@@ -243,7 +315,7 @@ var docSamples = map[string]string{
 	"currency/exchange-rate": `{"from":"USD","to":"EUR","amount":"0.9"}`,
 	"org/document-ref":       `{"code":"INV-1"}`,
 	"head/stamp":             `{"prv":"abc","val":"x"}`,
-	"dsig/digest":            `{"alg":"sha256","val":"00"}`,
+	"dsig/digest":            `{"alg":"sha256","val":"9f86d081884c7d659a2feaa0c55ad015a3bf4f1b2b0b822cd15d6c15b0f00a08"}`,
 }
 
 func enumStandalone(yield func(StandaloneCase) bool) {
@@ -326,6 +398,46 @@ func enumStandalone(yield func(StandaloneCase) bool) {
 			}
 			inst[name] = wrap(v)
 			if !emit(short, "with:"+name, inst) {
+				return
+			}
+			// and with one text of the added member in the other letter case
+			var leaves [][]string
+			stringLeaves(wrap(v), nil, &leaves)
+			for _, lp := range leaves {
+				cur, ok := leafAt(wrap(v), lp)
+				if !ok {
+					continue
+				}
+				flipped, changed := otherCase(cur)
+				if !changed {
+					continue
+				}
+				ci, ok := withPath(s, root, inst, append([]string{name}, lp...), flipped).(map[string]any)
+				if !ok {
+					continue
+				}
+				if !emit(short, "case:"+name+"/"+strings.Join(lp, "/"), ci) {
+					return
+				}
+			}
+		}
+		// the sample itself with one text in the other letter case
+		var baseLeaves [][]string
+		stringLeaves(base, nil, &baseLeaves)
+		for _, lp := range baseLeaves {
+			cur, ok := leafAt(base, lp)
+			if !ok {
+				continue
+			}
+			flipped, changed := otherCase(cur)
+			if !changed {
+				continue
+			}
+			ci, ok := withPath(s, root, base, lp, flipped).(map[string]any)
+			if !ok {
+				continue
+			}
+			if !emit(short, "case:"+strings.Join(lp, "/"), ci) {
 				return
 			}
 		}
